@@ -528,7 +528,7 @@ def evidence(prop, tier_name, base, cfg, agg, wall, nviol, exes):
         fault_site_names={"1": "wait EINTR", "2": "epoll_pwait2 ENOSYS/EPERM", "3": "ppoll ENOSYS", "4": "epoll_create1 ENOSYS",
                           "5": "epoll_create ENOSYS", "6": "timerfd_create ENOSYS", "7": "eventfd2 EINVAL/ENOSYS/EMFILE",
                           "8": "eventfd ENOSYS/EMFILE", "9": "pipe EMFILE", "10": "pipe2 ENOSYS", "11": "splice",
-                          "12": "kick epoll_ctl ADD ENOSPC", "13": "write error", "14": "read error", "15": "fork EAGAIN", "16": "pthread_create EAGAIN", "17": "inotify_init EMFILE", "18": "inotify_add_watch ENOSPC"},
+                          "12": "kick epoll_ctl ADD ENOSPC", "13": "write error", "14": "read error", "15": "fork EAGAIN", "16": "pthread_create EAGAIN", "17": "inotify_init EMFILE", "18": "inotify_add_watch ENOSPC", "19": "library read EINTR/EAGAIN"},
         poll_methods=agg.methods,
         probes=agg.probes,
         callbacks=agg.cbs,
